@@ -13,7 +13,8 @@
    - comparisons of a parameter with an inexact source constant (2/3, ...) are `sask`s on the
      ideal constant: the interval semantics forks when the parameter is within rounding of it.
    - `powi` is the square-and-multiply loop of compiler-rt's __powidf2 (one node per product;
-     the initial `1.0 * a` is exact and carries no node).
+     the initial `1.0 * a` is exact and carries no node).  A product `a * a` of a value with itself
+     is written `Un Sqr a` (same rounding budget as a product, no duplication of the operand).
    - rand's `Uniform::new(0.0, high)`: scale = high - 0.0 = high is exact and the adjusting loop of
      `new_bounded` never fires for low = 0 (scale * (1 - eps) + 0 <= high); a sample is
      `value0_1 * scale + 0.0` with value0_1 = (w >> 12) * 2^-52 exact: ONE rounded product
@@ -49,7 +50,7 @@ Fixpoint powi_aux (fuel : nat) (a : expr) (r : option expr) (b : Z) : expr :=
     let r' := if Z.odd b then Some (match r with None => a | Some r0 => r0 *. a end) else r in
     let b' := b / 2 in
     if b' =? 0 then match r' with None => one | Some r0 => r0 end
-    else powi_aux f (a *. a) r' b'
+    else powi_aux f (Un Sqr a) r' b'
   end.
 Definition powi (a : expr) (b : Z) : expr := powi_aux 64 a None b.
 
@@ -73,7 +74,7 @@ Fixpoint geo_new_loop (fuel : nat) (pi : expr) (k : Z) : sampler (expr * Z) :=
   | O => sfail 2
   | S f =>
     gt <- sask CGt pi half ;;
-    if gt then geo_new_loop f (pi *. pi) (k + 1) else sret (pi, k)
+    if gt then geo_new_loop f (Un Sqr pi) (k + 1) else sret (pi, k)
   end.
 (* p >= 2/3: count failures until u <= p *)
 Fixpoint geo_trivial (fuel : nat) (p : expr) (failures : Z) : sampler Z :=
@@ -110,7 +111,7 @@ Definition geometric (p : Z * Z) : sampler Z :=
   else if rounds_to_one p then sret U64MAX
   else
     let pi0 := one -. pe in
-    '(pi, k) <- geo_new_loop 64 (pi0 *. pi0) 1 ;;
+    '(pi, k) <- geo_new_loop 64 (Un Sqr pi0) 1 ;;
     if 64 <=? k then sfail 3 else       (* 1 << k overflows *)
     d <- geo_d 256 pi 0 ;;
     m <- geo_m 256 pe k ;;
@@ -181,3 +182,441 @@ Definition knuth (t : fty) (lambda : expr) : sampler Z :=
   let exp_lambda := eexp (eneg lambda) in
   p <- draw_std t ;;
   knuth_loop 1024 t exp_lambda p 1.
+
+(* RejectionMethod (Ahrens-Dieter PD) *)
+Record pd_consts := { pd_lambda : expr; pd_s : expr; pd_d : expr; pd_l : Z; pd_c : expr;
+                      pd_c0 : expr; pd_c1 : expr; pd_c2 : expr; pd_c3 : expr; pd_omega : expr }.
+(* coefficients a_0..a_9 of Table 1, as d / 10^10 *)
+Definition PD_A : list Z :=
+  [-5000000002; 3333333343; -2499998565; 1999997049; -1666848753;
+   1428833286; -1241963125; 1101687109; -1142650302; 1055093006].
+Definition PD_FACT : list Z := [1; 1; 2; 6; 24; 120; 720; 5040; 40320; 362880].
+Definition pd_coef (t : fty) (a : Z) : expr :=
+  cst t (if a <? 0 then eneg (dec (- a) 10) else dec a 10).
+(* Step F: (px, py, fx, fy) for an integer-valued float k *)
+Definition pd_f (t : fty) (P : pd_consts) (k : Z) : sampler (expr * expr * expr * expr) :=
+  let lam := pd_lambda P in
+  let kf := num k in
+  let x := (kf -. lam +. half) /. pd_s P in
+  let fx := eneg half *. x *. x in
+  let fy := pd_omega P *. (((pd_c3 P *. x *. x +. pd_c2 P) *. x *. x +. pd_c1 P) *. x *. x +. pd_c0 P) in
+  if k <? 0 then sfail 3 else
+  if k <? 10 then
+    let px := eneg lam in
+    let py := epow lam kf /. num (nth (Z.to_nat k) PD_FACT 1) in
+    sret (px, py, fx, fy)
+  else
+    let delta0 := one /. (num 12 *. kf) in
+    let delta := delta0 -. cst t (dec 48 1) *. powi delta0 3 in
+    let v := (lam -. kf) /. kf in
+    small <- sask CLe (eabs v) (Dy 1 (-2)) ;;
+    let px := if small then
+                kf *. powi v 2 *. fold_left (fun acc a => acc *. v +. pd_coef t a) (rev PD_A) (num 0) -. delta
+              else kf *. eln (one +. v) -. (lam -. kf) -. delta in
+    let py := one /. esqrt (num 2 *. Pi) /. esqrt kf in
+    sret (px, py, fx, fy).
+Fixpoint pd_loop (fuel : nat) (t : fty) (P : pd_consts) : sampler Z :=
+  match fuel with
+  | O => sfail 2
+  | S f =>
+    (* Step E *)
+    e <- exp1 t ;;
+    w <- next_word ;;
+    (* rng.random() * 2.0 - 1.0 : exact *)
+    let um := match t with F64 => 2 * (w / 2^11) - 2^53 | F32 => 2 * (hi32 w / 2^8) - 2^24 end in
+    let uabs := Exact (Dy (Z.abs um) (- fprec t)) in
+    let sgn := if 0 <=? um then 1 else -1 in
+    let tt := cst t (dec 18 1) +. e *. num sgn in
+    gt <- sask CGt tt (cst t (eneg (dec 6744 4))) ;;
+    if gt then
+      k2 <- sfloor (pd_lambda P +. pd_s P *. tt) ;;
+      '(px, py, fx, fy) <- pd_f t P k2 ;;
+      (* Step H *)
+      acc <- sask CLe (pd_c P *. uabs) (py *. eexp (px +. e) -. fy *. eexp (fx +. e)) ;;
+      if acc then sret k2 else pd_loop f t P
+    else pd_loop f t P
+  end.
+Definition pd_new (t : fty) (lam : expr) : sampler pd_consts :=
+  let b1 := cst t (rat 1 24) /. lam in
+  let b2 := cst t (dec 3 1) *. b1 *. b1 in
+  let c3 := cst t (rat 1 7) *. b1 *. b2 in
+  let c2 := b2 -. num 15 *. c3 in
+  let c1 := b1 -. num 6 *. b2 +. num 45 *. c3 in
+  let c0 := one -. b1 +. num 3 *. b2 -. num 15 *. c3 in
+  l <- sfloor (lam -. cst t (dec 11484 4)) ;;
+  sret {| pd_lambda := lam; pd_s := esqrt lam; pd_d := num 6 *. powi lam 2; pd_l := l;
+          pd_c := cst t (dec 1069 4) /. lam; pd_c0 := c0; pd_c1 := c1; pd_c2 := c2; pd_c3 := c3;
+          pd_omega := one /. esqrt (num 2 *. Pi) /. esqrt lam |}.
+Definition pd_sample (t : fty) (P : pd_consts) : sampler Z :=
+  let lam := pd_lambda P in
+  (* Step N: Normal::new(lambda, s).sample *)
+  z <- std_normal t ;;
+  let g := lam +. pd_s P *. z in
+  ge0 <- sask CGe g (num 0) ;;
+  if ge0 then
+    k1 <- sfloor g ;;
+    (* Step I *)
+    if pd_l P <=? k1 then sret k1 else
+    (* Step S *)
+    u <- draw_std t ;;
+    b <- sask CGe (pd_d P *. u) (powi (lam -. num k1) 3) ;;
+    if b then sret k1 else
+    '(px, py, fx, fy) <- pd_f t P k1 ;;
+    b2 <- sask CLe (fy *. (one -. u)) (py *. eexp (px -. fx)) ;;
+    if b2 then sret k1 else pd_loop 64 t P
+  else pd_loop 64 t P.
+Definition poisson (t : fty) (lambda : Z * Z) : sampler Z :=
+  if dy_ltb lambda (12, 0) then knuth t (dyx lambda)
+  else P <- pd_new t (dyx lambda) ;; pd_sample t P.
+
+(* ---- Binomial (binomial.rs) ---------------------------------------------------------------------------- *)
+(* 1.0 - p for an exact p in [0.5, 1]: exact (Sterbenz) *)
+Definition dy_1m (p : Z * Z) : Z * Z :=
+  let '(m, e) := p in if e <? 0 then (2 ^ (- e) - m, e) else (1 - m * 2 ^ e, 0).
+(* k + 0.5 for an integer-valued float k: exact below 2^51 *)
+Definition plus_half (k : Z) : expr := if Z.abs k <? 2^51 then Dy (2 * k + 1) (-1) else zf k +. half.
+
+(* BINV inner loop; None = x exceeded BINV_MAX_X = 110 (restart) *)
+Fixpoint binv_inner (fuel : nat) (a s u r : expr) (x : Z) : sampler (option Z) :=
+  match fuel with
+  | O => sfail 2
+  | S f =>
+    gt <- sask CGt u r ;;
+    if gt then
+      let u := u -. r in
+      let x := x + 1 in
+      if 110 <? x then sret None
+      else binv_inner f a s u (r *. (a /. zf x -. s)) x
+    else sret (Some x)
+  end.
+Fixpoint binv_outer (fuel : nat) (r a s : expr) : sampler Z :=
+  match fuel with
+  | O => sfail 2
+  | S f =>
+    u <- draw_std F64 ;;
+    o <- binv_inner 112 a s u r 0 ;;
+    match o with Some x => sret x | None => binv_outer f r a s end
+  end.
+
+(* BTPE step 5.1: f *= a/i - s for i = lo+1..hi (f = None stands for the exact 1.0) *)
+Fixpoint btpe_up (cnt : nat) (a s : expr) (i : Z) (f : option expr) : expr :=
+  match cnt with
+  | O => match f with None => one | Some f0 => f0 end
+  | S c =>
+    let i := i + 1 in
+    let g := a /. zf i -. s in
+    btpe_up c a s i (Some (match f with None => g | Some f0 => f0 *. g end))
+  end.
+Fixpoint btpe_down (cnt : nat) (a s : expr) (i : Z) (f : expr) : expr :=
+  match cnt with
+  | O => f
+  | S c => let i := i + 1 in btpe_down c a s i (f /. (a /. zf i -. s))
+  end.
+Definition stirling (a : expr) : expr :=
+  let a2 := Un Sqr a in
+  (num 13860 -. (num 462 -. (num 132 -. (num 99 -. num 140 /. a2) /. a2) /. a2) /. a2) /. a /. num 166320.
+Definition f64_to_u64 (e : expr) : sampler Z :=
+  y <- sfloor e ;; if (y <? 0) || (U64MAX <=? y) then sfail 3 else sret y.
+
+Section Btpe.
+Variables (n : Z) (pe : expr).
+Let nf := zf n.
+Let np := nf *. pe.
+Let q := one -. pe.
+Let npq := np *. q.
+Let f_m := np +. pe.
+(* Step 5: Some y = accept, None = continue *)
+Definition btpe_step5 (m : Z) (x_m : expr) (y : Z) (v : expr) : sampler (option Z) :=
+  let k := Z.abs (y - m) in
+  sq <- (if 20 <? k then sask CLt (zf k) (half *. npq -. one) else sret false) ;;
+  if negb sq then
+    (* 5.1 *)
+    let s := pe /. q in
+    let a := s *. (nf +. one) in
+    let f := if m <? y then btpe_up (Z.to_nat (y - m)) a s m None
+             else if y <? m then btpe_down (Z.to_nat (m - y)) a s y one
+             else one in
+    gt <- sask CGt v f ;;
+    if gt then sret None else sret (Some y)
+  else
+    (* 5.2 *)
+    let kf := zf k in
+    let rho := (kf /. npq) *. ((kf *. (kf /. num 3 +. Dy 5 (-3)) +. rat 1 6) /. npq +. half) in
+    let t := eneg half *. kf *. kf /. npq in
+    let alpha := eln v in
+    lt <- sask CLt alpha (t -. rho) ;;
+    if lt then sret (Some y) else
+    gt <- sask CGt alpha (t +. rho) ;;
+    if gt then sret None else
+    (* 5.3 *)
+    if n <? y then sfail 3 else
+    let x1 := zf (y + 1) in
+    let f1 := zf (m + 1) in
+    let z := zf (n - m + 1) in
+    let w := zf (n - y + 1) in
+    let y_sub_m := zf (y - m) in
+    let bound := x_m *. eln (f1 /. x1) +. (zf (n - m) +. half) *. eln (z /. w)
+                 +. y_sub_m *. eln (w *. pe /. (x1 *. q))
+                 +. stirling f1 +. stirling z -. stirling x1 -. stirling w in
+    gt2 <- sask CGt alpha bound ;;
+    if gt2 then sret None else sret (Some y).
+
+Fixpoint btpe_loop (fuel : nat) (m : Z) (p1 x_m x_l x_r c p2 lambda_l lambda_r p3 p4 : expr) : sampler Z :=
+  match fuel with
+  | O => sfail 2
+  | S fu =>
+    let again := btpe_loop fu m p1 x_m x_l x_r c p2 lambda_l lambda_r p3 p4 in
+    let step5 (y : Z) (v : expr) : sampler Z :=
+      o <- btpe_step5 m x_m y v ;; match o with Some y => sret y | None => again end in
+    w1 <- next_word ;; w2 <- next_word ;;
+    (* Uniform::new(0., p4).sample / Uniform::new(0., 1.).sample *)
+    let u := Exact (Dy (w1 / 2^12) (-52)) *. p4 in
+    let v := Exact (Dy (w2 / 2^12) (-52)) in
+    g1 <- sask CGt u p1 ;;
+    if negb g1 then f64_to_u64 (x_m -. p1 *. v +. u) else
+    g2 <- sask CGt u p2 ;;
+    if negb g2 then
+      (* region 2 *)
+      let x := x_l +. (u -. p1) /. c in
+      let v := v *. c +. one -. eabs (x -. x_m) /. p1 in
+      gt <- sask CGt v one ;;
+      if gt then again else y <- f64_to_u64 x ;; step5 y v
+    else
+    g3 <- sask CGt u p3 ;;
+    if negb g3 then
+      (* region 3 *)
+      let y_tmp := x_l +. eln v /. lambda_l in
+      neg <- sask CLt y_tmp (num 0) ;;
+      if neg then again else
+      y <- f64_to_u64 y_tmp ;;
+      step5 y (v *. ((u -. p2) *. lambda_l))
+    else
+      (* region 4: `as u64` saturates *)
+      y0 <- sfloor (x_r -. eln v /. lambda_r) ;;
+      let y := Z.min (Z.max y0 0) U64MAX in
+      if n <? y then again else step5 y (v *. ((u -. p3) *. lambda_r))
+  end.
+
+Definition btpe (flipped : bool) : sampler Z :=
+  p1k <- sfloor (dec 2195 3 *. esqrt npq -. dec 46 1 *. q) ;;
+  let p1 := plus_half p1k in
+  m <- f64_to_u64 f_m ;;
+  let mf := zf m in
+  let x_m := plus_half m in
+  let x_l := x_m -. p1 in
+  let x_r := x_m +. p1 in
+  let c := dec 134 3 +. dec 205 1 /. (dec 153 1 +. mf) in
+  let p2 := p1 *. (one +. num 2 *. c) in
+  let lam (a : expr) := a *. (one +. half *. a) in
+  let lambda_l := lam ((f_m -. x_l) /. (f_m -. x_l *. pe)) in
+  let lambda_r := lam ((x_r -. f_m) /. (x_r *. q)) in
+  let p3 := p2 +. c /. lambda_l in
+  let p4 := p3 +. c /. lambda_r in
+  y <- btpe_loop 64 m p1 x_m x_l x_r c p2 lambda_l lambda_r p3 p4 ;;
+  sret (if flipped then n - y else y).
+End Btpe.
+
+Definition binomial (n : Z) (p : Z * Z) : sampler Z :=
+  if dy_eqb p (0, 0) then sret 0 else
+  if dy_eqb p (1, 0) then sret n else
+  let flipped := dy_ltb (1, -1) p in
+  let p' := if flipped then dy_1m p else p in
+  let pe := dyx p' in
+  let nf := zf n in
+  let np := nf *. pe in
+  lt <- sask CLt np (num 10) ;;
+  if lt then
+    if rounds_to_one p' then knuth F64 np      (* q == 1.0: Poisson limit; `as u64` of a count *)
+    else
+      let q := one -. pe in
+      let s := pe /. q in
+      let r := epow q nf in
+      let a := (nf +. one) *. s in
+      x <- binv_outer 64 r a s ;;
+      sret (if flipped then n - x else x)
+  else btpe n pe flipped.
+
+(* ---- Hypergeometric (hypergeometric.rs) ------------------------------------------------------------------ *)
+(* fraction_of_products_of_factorials; the running product starts at the exact 1.0 (None) *)
+Definition fmul (r : option expr) (x : expr) : option expr :=
+  Some (match r with None => x | Some r0 => r0 *. x end).
+Definition fdiv (r : option expr) (x : expr) : option expr :=
+  Some (match r with None => one /. x | Some r0 => r0 /. x end).
+Fixpoint fpf_loop (cnt : nat) (i min_top min_bottom max_top max_bottom : Z) (r : option expr) : option expr :=
+  match cnt with
+  | O => r
+  | S c =>
+    let r := if i <=? min_top then fmul r (zf i) else r in
+    let r := if i <=? min_bottom then fdiv r (zf i) else r in
+    let r := if i <=? max_top then fmul r (zf i) else r in
+    let r := if i <=? max_bottom then fdiv r (zf i) else r in
+    fpf_loop c (i + 1) min_top min_bottom max_top max_bottom r
+  end.
+Definition fraction_of_products_of_factorials (num0 num1 den0 den1 : Z) : expr :=
+  let min_top := Z.min num0 num1 in
+  let min_bottom := Z.min den0 den1 in
+  let min_all := Z.min min_top min_bottom in
+  let max_top := Z.max num0 num1 in
+  let max_bottom := Z.max den0 den1 in
+  let max_all := Z.max max_top max_bottom in
+  match fpf_loop (Z.to_nat (max_all - min_all)) (min_all + 1) min_top min_bottom max_top max_bottom None with
+  | None => one | Some r => r end.
+
+Definition LOGSQRT2PI : expr := dec 91893853320467274178 20.
+Definition ln_of_factorial (v : expr) : expr :=
+  let v_3 := v +. num 3 in
+  let ln_fac := (v_3 +. half) *. eln v_3 -. v_3 +. LOGSQRT2PI +. one /. (num 12 *. v_3) in
+  ln_fac -. eln ((v +. num 3) *. (v +. num 2) *. (v +. one)).
+
+(* HIN: while u > p && x < min(n1,k) *)
+Fixpoint hin_loop (fuel : nat) (n1 n2 k : Z) (u p : expr) (x : Z) : sampler Z :=
+  match fuel with
+  | O => sfail 2
+  | S f =>
+    gt <- sask CGt u p ;;
+    if gt && (x <? Z.min n1 k) then
+      let u := u -. p in
+      let p := p *. zf ((n1 - x) * (k - x)) in
+      let p := p /. zf ((x + 1) * (n2 - k + 1 + x)) in
+      hin_loop f n1 n2 k u p (x + 1)
+    else sret x
+  end.
+
+(* H2PE step 4.1 products *)
+Fixpoint h2pe_up (cnt : nat) (n1 n2 k i : Z) (f : option expr) : sampler expr :=
+  match cnt with
+  | O => sret (match f with None => one | Some f0 => f0 end)
+  | S c =>
+    let i := i + 1 in
+    if (n1 <? i) || (k <? i) then sfail 3 else      (* u64 underflow in n1 - i, k - i *)
+    let f := fmul f (zf (n1 - i + 1) *. zf (k - i + 1)) in
+    let f := fdiv f (zf i *. zf (n2 - k + i)) in
+    h2pe_up c n1 n2 k i f
+  end.
+Fixpoint h2pe_down (cnt : nat) (n1 n2 k i : Z) (f : option expr) : sampler expr :=
+  match cnt with
+  | O => sret (match f with None => one | Some f0 => f0 end)
+  | S c =>
+    let i := i + 1 in
+    if (n1 <? i) || (k <? i) then sfail 3 else
+    let f := fmul f (zf i *. zf (n2 - k + i)) in
+    let f := fdiv f (zf (n1 - i + 1) *. zf (k - i + 1)) in
+    h2pe_down c n1 n2 k i f
+  end.
+
+Section H2pe.
+(* all integer quantities are below 2^51 here, so that float arithmetic on integer-valued (or
+   half-integer-valued) operands is exact and is carried out in Z (`zf`, `plus_half`) *)
+Variables (n1 n2 k m : Z) (a lambda_l lambda_r x_l x_r p1 p2 p3 : expr).
+Let mf := zf m.
+Definition mhalf : expr := Dy (-1) (-1).
+Definition cubic (r : expr) : expr := one +. r *. (mhalf +. r /. num 3).
+(* x < 0.0 for x = (+-)ym / d with d > 0: false on a (signed) zero *)
+Definition sneg (is_zero : bool) (x : expr) : sampler bool :=
+  if is_zero then sret false else sask CLt x (num 0).
+(* Step 4: Some y = accept, None = continue *)
+Definition h2pe_step4 (y : Z) (v : expr) : sampler (option Z) :=
+  let yf := zf y in
+  if (m <? 100) || (y <=? 50) then
+    (* 4.1 *)
+    f <- (if m <? y then h2pe_up (Z.to_nat (y - m)) n1 n2 k m None
+          else h2pe_down (Z.to_nat (m - Z.max y 0)) n1 n2 k (Z.max y 0) None) ;;
+    le <- sask CLe v f ;;
+    if le then sret (Some y) else sret None
+  else
+    (* 4.2 *)
+    let y1 := zf (y + 1) in
+    let ym := zf (y - m) in
+    let yn := zf (n1 - y + 1) in
+    let yk := zf (k - y + 1) in
+    let nk := zf (n2 - k + (y + 1)) in
+    let r := eneg ym /. y1 in
+    let s := ym /. yn in
+    let t := ym /. yk in
+    let e := eneg ym /. nk in
+    let g := yn *. yk /. (y1 *. nk) -. one in
+    gneg <- sask CLt g (num 0) ;;
+    let dg := if gneg then one +. g else one in
+    let gu := g *. cubic g in
+    let gl := gu -. powi g 4 /. (num 4 *. dg) in
+    let xm := plus_half m in
+    let xn := plus_half (n1 - m) in
+    let xk := plus_half (k - m) in
+    let nm := plus_half (n2 - k + m) in
+    let ub := xm *. r *. cubic r +. xn *. s *. cubic s +. xk *. t *. cubic t +. nm *. e *. cubic e
+              +. yf *. gu -. mf *. gl +. dec 34 4 in
+    let av := eln v in
+    gt <- sask CGt av ub ;;
+    if gt then sret None else
+    let z := (y =? m) in
+    let dd (x w : expr) (neg : bool) := if neg then w *. powi x 4 /. (one +. x) else w *. powi x 4 in
+    rn <- sneg z r ;; sn <- sneg z s ;; tn <- sneg z t ;; en <- sneg z e ;;
+    let dr := dd r xm rn in
+    let ds := dd s xn sn in
+    let dt := dd t xk tn in
+    let de := dd e nm en in
+    lt <- sask CLt av (ub -. Dy 1 (-2) *. (dr +. ds +. dt +. de) +. (yf +. mf) *. (gl -. gu) -. dec 78 4) ;;
+    if lt then sret (Some y) else
+    (* 4.3 *)
+    let av_critical := a -. ln_of_factorial yf -. ln_of_factorial (zf n1 -. yf)
+                       -. ln_of_factorial (zf k -. yf) -. ln_of_factorial (zf (n2 - k) +. yf) in
+    le <- sask CLe (eln v) av_critical ;;
+    if le then sret (Some y) else sret None.
+
+Fixpoint h2pe_loop (fuel : nat) : sampler Z :=
+  match fuel with
+  | O => sfail 2
+  | S fu =>
+    let step4 (y : Z) (v : expr) : sampler Z :=
+      o <- h2pe_step4 y v ;; match o with Some y => sret y | None => h2pe_loop fu end in
+    w1 <- next_word ;; w2 <- next_word ;;
+    let u := Exact (Dy (w1 / 2^12) (-52)) *. p3 in      (* Uniform::new(0.0, p3).sample *)
+    let v := u_std F64 w2 in
+    le1 <- sask CLe u p1 ;;
+    if le1 then y <- sfloor (x_l +. u) ;; step4 y v else
+    le2 <- sask CLe u p2 ;;
+    if le2 then
+      y <- sfloor (x_l +. eln v /. lambda_l) ;;
+      if Z.max 0 (k - n2) <=? y then step4 y (v *. (u -. p1) *. lambda_l) else h2pe_loop fu
+    else
+      y <- sfloor (x_r -. eln v /. lambda_r) ;;
+      if Z.max y 0 <=? Z.min n1 k then step4 y (v *. (u -. p2) *. lambda_r) else h2pe_loop fu
+  end.
+End H2pe.
+
+Definition hypergeometric (N K ns : Z) : sampler Z :=
+  let n := N in
+  if 2^51 <=? n then sfail 4 else
+  let without := n - K in
+  let '(sign_x, offset_x, n1, n2) :=
+    if without <? K then (-1, ns, without, K) else (1, 0, K, without) in
+  let '(k, offset_x, sign_x) :=
+    if ns <=? n / 2 then (ns, offset_x, sign_x) else (n - ns, offset_x + n1 * sign_x, - sign_x) in
+  m <- sfloor ((zf k +. one) *. (zf n1 +. one) /. (zf n +. num 2)) ;;
+  x <- (if m - Z.max 0 (k - n2) <? 10 then
+          (* HIN *)
+          let '(p, x0) := if k <? n2 then (fraction_of_products_of_factorials n2 (n - k) n (n2 - k), 0)
+                          else (fraction_of_products_of_factorials n1 k n (k - n2), k - n2) in
+          u <- draw_std F64 ;;
+          hin_loop (Z.to_nat (Z.min n1 k - x0) + 2) n1 n2 k u p x0
+        else
+          (* H2PE *)
+          let mf := zf m in
+          let a := ln_of_factorial mf +. ln_of_factorial (zf n1 -. mf) +. ln_of_factorial (zf k -. mf)
+                   +. ln_of_factorial (zf (n2 - k) +. mf) in
+          let numerator := zf (n - k) *. zf k *. zf n1 *. zf n2 in
+          let denominator := zf (n - 1) *. zf n *. zf n in
+          let d := Dy 3 (-1) *. esqrt (numerator /. denominator) +. half in
+          let x_l := mf -. d +. half in
+          let x_r := mf +. d +. half in
+          let k_l := eexp (a -. ln_of_factorial x_l -. ln_of_factorial (zf n1 -. x_l)
+                           -. ln_of_factorial (zf k -. x_l) -. ln_of_factorial (zf (n2 - k) +. x_l)) in
+          let k_r := eexp (a -. ln_of_factorial (x_r -. one) -. ln_of_factorial (zf n1 -. x_r +. one)
+                           -. ln_of_factorial (zf k -. x_r +. one) -. ln_of_factorial (zf (n2 - k) +. x_r -. one)) in
+          let lambda_l := eneg (eln ((x_l *. (zf (n2 - k) +. x_l)) /. ((zf n1 -. x_l +. one) *. (zf k -. x_l +. one)))) in
+          let lambda_r := eneg (eln (((zf n1 -. x_r +. one) *. (zf k -. x_r +. one)) /. (x_r *. (zf (n2 - k) +. x_r)))) in
+          let p1 := num 2 *. d in
+          let p2 := p1 +. k_l /. lambda_l in
+          let p3 := p2 +. k_r /. lambda_r in
+          h2pe_loop n1 n2 k m a lambda_l lambda_r x_l x_r p1 p2 p3 64) ;;
+  sret ((offset_x + sign_x * x) mod 2^64).
